@@ -64,6 +64,7 @@ type Outcome struct {
 	TypeDiffs   []Diff
 	CValDiffs   []Diff
 	DeclDiffs   []Diff
+	FoldedBad   []Diff // builder carries a constant where go/types (on the source) has none / rejects the expression
 	Ops         int
 	OpKinds     map[string]int
 	Events      []fe.OpEvent
@@ -255,6 +256,9 @@ func Build(u *ref.Universe, srcs []string, opt Opt) *Outcome {
 		}
 		return o
 	}
+	if c.Recs != nil {
+		o.foldedBad(c)
+	}
 	// output
 	if !o.Write(u, pkg, pkgPath) {
 		return o
@@ -362,6 +366,32 @@ func TypeStr(t types.Type) string {
 		}
 		return p.Path()
 	})
+}
+
+// foldedBad lists source expressions for which the builder carries a compile-time value although go/types does not
+// (not a constant expression, or a constant expression Go rejects).
+func (o *Outcome) foldedBad(c *fe.Compiler) {
+	var list []Diff
+	for e, rec := range c.Recs {
+		if rec.CVal == nil || rec.Ref {
+			continue
+		}
+		switch e.(type) {
+		case *ast.BasicLit, *ast.Ident, *ast.SelectorExpr:
+			continue
+		}
+		tv, ok := o.Src.Info.Types[e]
+		if ok && tv.Value != nil {
+			continue
+		}
+		g := "not a constant expression"
+		if !ok || tv.Type == nil || tv.Type == types.Typ[types.Invalid] {
+			g = "rejected by go/types"
+		}
+		list = append(list, Diff{types.ExprString(e), cvalStr(rec.CVal), g})
+	}
+	sort.Slice(list, func(i, j int) bool { return list[i].Expr < list[j].Expr })
+	o.FoldedBad = list
 }
 
 func (o *Outcome) compare(u *ref.Universe, c *fe.Compiler) {
